@@ -201,6 +201,7 @@ Proof.
   - apply inv_close. destruct (loop_open s); [apply inv_complete_group|]; exact H.
   - destruct H as [H1 H2 H3 H4 H5 H6 H7 H8 H9 H10 H11]. constructor; assumption.
   - destruct H as [H1 H2 H3 H4 H5 H6 H7 H8 H9 H10 H11]. constructor; assumption.
+  - apply inv_complete_group, H.
 Qed.
 
 Theorem inv_run ops : Inv (run true ops).
